@@ -107,6 +107,40 @@ pub fn scenario(mode: &str, pool_size: u32, px: &str, py: &str, key: &str) -> Sc
     }
 }
 
+/// A RELOAD that changes an unrelated pool ("other") or the pool_size of X's own pool ("own") lands anywhere
+/// in the schedule: X's running session is still X's, and its cancel key still has to reach it.
+pub fn reload_scenario(pool_size: u32, px: &str, key: &str, changed: &str) -> Scenario {
+    let mk = |db2_size: u32, db_size: u32| {
+        let mut p2 = PoolCfg::simple("db2", "transaction", db2_size, 1, 0);
+        p2.shards[0].servers = vec![("pg-other".to_string(), 5432, "primary".to_string())];
+        Cfg { pools: vec![PoolCfg::simple("db", "transaction", db_size, 1, 0), p2], ..Default::default() }
+    };
+    let cfg = mk(2, pool_size);
+    let new = if changed == "other" { mk(3, pool_size) } else { mk(2, pool_size + 1) };
+    let mut servers = cfg.servers();
+    servers[0].gate = Gate::PerReply;
+    let x = program(0, px, true).actor();
+    let y = program(1, "txn2", false).actor();
+    let z = Script::new("z").connect("alice", "db", Some("alicepw")).q(&format!("SELECT 0 /*{}*/", tag(2, 0, 0))).terminate().actor();
+    let (ck, pre): (CancelKey, Vec<Step>) = match key {
+        "x" => (CancelKey::OfClient(0), vec![Step::Wait(Cond::ActorAt(0, 1))]),
+        "stale" => (CancelKey::StaleOfClient(2), vec![Step::Wait(Cond::ActorsDone(vec![2]))]),
+        _ => panic!("key"),
+    };
+    let mut steps = pre;
+    steps.push(Step::Cancel(ck));
+    let reload = env("reload", vec![Step::WriteConfig(0), Step::Admin("RELOAD".into())]);
+    Scenario {
+        name: format!("C10 reload changed={} pool_size={} x={} y=txn2 key={}", changed, pool_size, px, key),
+        toml: cfg.toml(),
+        alt_tomls: vec![new.toml()],
+        servers,
+        actors: vec![x, y, z, env("canceller", steps), reload],
+        opts: Opts::default(),
+        meta: serde_json::json!({"key": key, "mode": "transaction", "reload": changed}),
+    }
+}
+
 /// conn held by client `c` at log position `s` (transaction mode: open transaction / copy / batch; session mode: until the client leaves).
 /// The hold begins with the parameter sync (`SET <tracked> TO ..`) the pooler runs on the borrowed server
 /// right before the client's first statement: those control queries are attributed to the client whose
@@ -180,6 +214,10 @@ pub fn oracle(sc: &Scenario, out: &Outcome) -> Vec<Violation> {
     let session = sc.meta["mode"].as_str().unwrap() == "session";
     let x = sc.name.split_whitespace().find_map(|w| w.strip_prefix("x=")).unwrap_or("");
     let ctx = format!("key={}:x={}:{}", key, x, if session { "session" } else { "transaction" });
+    let ctx = match sc.meta.get("reload").and_then(|r| r.as_str()) {
+        Some(r) => format!("{}:reload-{}-pool", ctx, r),
+        None => ctx,
+    };
     // the cancel event
     let cancel_seq = log.iter().find_map(|e| match &e.rec {
         Rec::Note { msg } if msg.starts_with("cancel-request") => Some(e.seq),
@@ -275,12 +313,25 @@ pub fn build(tier: &str) -> SimCheck {
             }
         }
     }
+    // a RELOAD somewhere in the schedule
+    for pool_size in [1u32, 2] {
+        for px in ["txn2", "auto"] {
+            for key in ["x", "stale"] {
+                for changed in ["other", "own"] {
+                    if !thorough && (pool_size == 2 || px == "auto") && changed == "own" {
+                        continue;
+                    }
+                    scenarios.push(reload_scenario(pool_size, px, key, changed));
+                }
+            }
+        }
+    }
     SimCheck {
         scenarios,
         oracle: Box::new(oracle),
         bound: 2,
         limits: Limits { max_wall_s: if thorough { 1500.0 } else { 55.0 }, ..Default::default() },
-        rule: "scenario = pool mode x pool_size {1,2} x program of X (two transactions, COPY in + CopyDone/CopyFail, extended batch, idle-in-transaction timeout, autocommit; X stays connected) x program of Y x cancel key (X's, Y's, stale key of a departed client, random, right pid wrong secret); backend replies gated so statements are genuinely running; the cancel event placed at every point of every interleaving with <= 2 deviations".into(),
+        rule: "scenario = pool mode x pool_size {1,2} x program of X (two transactions, COPY in + CopyDone/CopyFail, extended batch, idle-in-transaction timeout, autocommit; X stays connected) x program of Y x cancel key (X's, Y's, stale key of a departed client, random, right pid wrong secret); also with a RELOAD that changes another pool / X's own pool placed anywhere; backend replies gated so statements are genuinely running; the cancel event placed at every point of every interleaving with <= 2 deviations".into(),
         assumptions: vec!["ownership interval of a server session judged at quiescent instants from the reference backend's log (first statement of a transaction .. delivery of the ReadyForQuery(idle) that ends it)".into()],
     }
 }
